@@ -182,4 +182,21 @@ def run(chk, tier):
     chk.expect(any((c or "").endswith("::decoder_for") for c, _ in H.calls(ho["body"])), "selection", "new_with_override", "uses-ts-decoder", "ts.decoder_for()", "ok")
     # the probe trusts VR::from_binary to recognise exactly the 34 defined two-letter codes (anything else means "not explicit VR")
     c03.vr_code(chk, fx, fx.variants(C.VR_ENUM))
+    # the probe compares the VR it reads with the dictionary's VR for the first element's tag (StandardDataDictionary::by_tag): the
+    # generic fall-backs of that look-up (group length -> UL, private creator -> LO, in that order and with those ranges) decide whether an
+    # Explicit VR stream starting with a group length or a private element is recognised -- C15's look-up order instances are part of this
+    from . import c15, report
+    sub = report.Check("C15", tier)
+    c15.run(sub, tier)
+    chk.rule("dictionary-vr-for-the-probe", "StandardDataDictionary::by_tag resolves exact entries first, then repeating groups/elements, then private creator (odd group, 0010..=00FF), "
+             "then group length (element 0000) (instances of C15 lookup-order)")
+    n_lk = 0
+    for inst in sub.instances:
+        if inst["rule"] == "lookup-order" and inst["fn"] in ("indexed_tag", "by_tag", "index", "init_dictionary"):
+            n_lk += 1
+            if inst["status"] == "ok":
+                chk.ok("dictionary-vr-for-the-probe", inst["fn"], inst["instance"], inst.get("detail"))
+            else:
+                chk.bad("dictionary-vr-for-the-probe", inst["fn"], inst["instance"], inst.get("expected"), inst.get("found"), loc=inst.get("loc"))
+    chk.floor("dictionary-vr-for-the-probe", "look-up instances", n_lk, 6)
     chk.undecided.append("token-for-token equality on concrete data sets; ambiguity resolution for streams whose first length bytes spell a compatible VR (excluded by the property)")
